@@ -39,7 +39,7 @@ def main():
     if rc:
         rc, o = sh(f"patch -p1 -F3 -s --no-backup-if-mismatch -i {pfile}", cwd="/repo")
         if rc:
-            sh("git checkout -- .", cwd="/repo"); print("patch does not apply to /repo"); return 2
+            sh("git checkout -- . && rm -f websocket/*.rej websocket/*.orig", cwd="/repo"); print("patch does not apply to /repo"); return 2
     res = {}
     try:
         for i in range(1, 21):
